@@ -74,6 +74,7 @@ var ingressAnnotations = []annChoice{
 	{"auth-url", []string{"http://10.9.9.9:8000/auth", "http://10.9.9.8:8000/auth", "http://10.9.9.7:8001/check", "svc://a/s2:80", "svc://missing:80", "http://authhost.local/x", "bad::url", "https://10.9.9.6/auth", "ftp://10.9.9.9/x", "http://nohost.local/x", "svc://s2", "svc://a/s2:81"}},
 	{"auth-external-placement", []string{"frontend", "backend"}},
 	{"session-cookie-preserve", []string{"true"}},
+	{"session-cookie-dynamic", []string{"false", "true"}},
 	{"session-cookie-value-strategy", []string{"pod-uid", "server-name"}},
 	{"cert-signer", []string{"acme"}},
 	{"tcp-service-port", []string{"7000", "7001"}},
